@@ -20,8 +20,11 @@ def parseIP (tok : String) : Option Nat :=
 def hex32 (v : Nat) : String :=
   String.ofList ((List.range 32).map fun i => hexDigit ((v / 16 ^ (31 - i)) % 16))
 
+/-- code → harness notation: nil is `-`, a 16-byte IP its 32 hex digits -/
+def renderIP (c : Nat) : String := if c == 0 then "-" else hex32 (c - 1)
+
 def renderItems (l : List Item) : String :=
-  if l.isEmpty then "." else ",".intercalate (l.map fun a => hex32 a.1 ++ ":" ++ hex32 a.2)
+  if l.isEmpty then "." else ",".intercalate (l.map fun a => renderIP a.1 ++ ":" ++ renderIP a.2)
 
 def listOf (s : String) : List String := if s == "." || s == "" then [] else s.splitOn ","
 
@@ -30,7 +33,11 @@ def parseItems (s : String) : Option (List Item) :=
     match t.splitOn ":" with
     | [a, b] =>
       match bytesOfHex a, bytesOfHex b with
-      | some x, some y => if x.length = 16 && y.length = 16 then some (natOfBytes x, natOfBytes y) else none
+      | some x, some y =>
+        let c := fun (b : List UInt8) => if b.isEmpty then some 0 else if b.length = 16 then some (encIP (natOfBytes b)) else none
+        match c x, c y with
+        | some u, some v => some (u, v)
+        | _, _ => none
       | _, _ => none
     | _ => none
 
@@ -63,9 +70,9 @@ def run (op impl : String) : Ans :=
     | [a, b] => insertPair (parseIP a) (parseIP b)
     | _ => none
   let ranges : List Item := ins.filterMap id
-  let sgl : List (Option Nat) := stok.map parseIP
+  let sgl : List (Option Nat) := stok.map fun t => (parseIP t).map encIP
   let singles : List Nat := sgl.filterMap id
-  let probes : List (Option Nat) := ptok.map parseIP
+  let probes : List (Option Nat) := ptok.map fun t => (parseIP t).map encIP
   -- the sort oracle taken from the implementation, validated
   let s1s := field isecs "s1"
   let s2s := field isecs "s2"
@@ -77,8 +84,8 @@ def run (op impl : String) : Ans :=
   let expE := bits (ins.map Option.isNone)
   let expF := bits (sgl.map Option.isNone)
   let expQ := probes.map okQ
-  let zs := ranges.any fun r => r.1 == 0
-  let v0 := ranges.any fun r => r.2 == v4zero
+  let zs := ranges.any fun r => r.1 == encIP 0
+  let v0 := ranges.any fun r => r.2 == encIP v4zero
   let verdict :=
     if implE != expE || implF != expF then "FAIL:insert-validation"
     else if implQ == bits expQ then "ok"
@@ -90,8 +97,8 @@ def run (op impl : String) : Ans :=
         else
           let c := component ranges p
           if singles.contains p then "FAIL:single-lost"
-          else if c.1 == 0 then "FAIL:zero-start"
-          else if v0 && decide (c.1 ≤ v4zero) && decide (v4zero < p) then "FAIL:v4zero-end"
+          else if c.1 == encIP 0 then "FAIL:zero-start"
+          else if v0 && decide (c.1 ≤ encIP v4zero) && decide (encIP v4zero < p) then "FAIL:v4zero-end"
           else "FAIL:false-negative"
       | _ => "FAIL:probe-count"
   match parseItems s1s, parseItems s2s with
@@ -110,8 +117,8 @@ def run (op impl : String) : Ans :=
       (if n > 12 then ["n>12"] else if s1 == goSort ranges && s2 == goSort b.1 then ["n<=12", "goSort-eq"] else ["n<=12", "goSort-ne"]) ++
       (if zs then ["zero-start"] else []) ++ (if v0 then ["v4zero-end"] else []) ++
       (if singles.isEmpty then [] else ["singles"]) ++
-      (if ranges.any (fun r => isV4 r.1) then ["v4"] else []) ++
-      (if ranges.any (fun r => !isV4 r.1) then ["v6"] else []) ++
+      (if ranges.any (fun r => isV4 (r.1 - 1)) then ["v4"] else []) ++
+      (if ranges.any (fun r => !isV4 (r.1 - 1)) then ["v6"] else []) ++
       (if ins.any Option.isNone then ["rejected-range"] else [])
     { model := m, verdict := verdict, tags := tags }
   | _, _ => { model := "unparsable-impl", verdict := verdict, tags := ["bad-oracle"] }
